@@ -6,7 +6,7 @@ use crate::exec::run_case;
 use crate::gen::{gen_case, Profile};
 use crate::oracle;
 use crate::props::{labels, CombProp, Tier};
-use crate::world;
+use crate::world::{self, Family, Oracle};
 
 pub struct CombEngine {
     pub prop: &'static CombProp,
@@ -35,7 +35,26 @@ impl CombEngine {
         oracle::check_trace(&mut out.world);
         let nontrivial = out.inconclusive.is_none() && (self.prop.nontrivial)(case, &out);
         let labels = labels(case, &out);
-        let violations = if out.inconclusive.is_some() { Vec::new() } else { std::mem::take(&mut out.world.viol) };
+        let mut violations = if out.inconclusive.is_some() { Vec::new() } else { std::mem::take(&mut out.world.viol) };
+        // ownership clauses that are part of a family's own statement:
+        // C05 "values already produced by other children are dropped rather than
+        // returned", C06 "the losing children ... are dropped, unfinished,
+        // together with the race future", C09 "drops - never yields - such
+        // unmatched items"
+        let fold: Option<(Family, Oracle)> = match self.prop.id {
+            "C05" => Some((Family::TryJoin, Oracle::DV)),
+            "C06" => Some((Family::Race, Oracle::D)),
+            "C09" => Some((Family::Zip, Oracle::DV)),
+            _ => None,
+        };
+        if let Some((fam, which)) = fold {
+            let extra: Vec<world::Violation> = violations
+                .iter()
+                .filter(|v| v.oracle == which && v.fam == Some(fam))
+                .map(|v| world::Violation { oracle: Oracle::Func(fam), msg: format!("[{:?}] {}", v.oracle, v.msg), fam: Some(fam) })
+                .collect();
+            violations.extend(extra);
+        }
         let trace_lines = std::mem::take(&mut out.world.trace);
         let ev = Eval {
             violations,
